@@ -25,7 +25,7 @@ SeqOf(x) == "Seq" \o x
 PackSorts == {"Pair", "Rec", "Nest", "RecP", "PS", "PSP", "RecS", "RecI"}   \* RecI = {0: Int, 1: Int}   \* PSP = (SeqPair, Int); RecS = {k1: PS, k2: Pair}
 ElemSorts == IF Fam \in {"fused", "betad", "corea"} THEN {"Evt", "Jet", "Int"}
              ELSE IF Fam = "betaw" THEN {"Evt", "Jet", "Trk"}
-             ELSE IF Fam = "betads" THEN {"Evt", "Int", "Pair"}
+             ELSE IF Fam \in {"betads", "betadn"} THEN {"Evt", "Int", "Pair"}
              ELSE IF Fam = "chainf" THEN {"Evt", "Jet", "Int", "Pair", "Rec", "Nest"}
              ELSE IF Fam = "e2eb" THEN {"Evt", "Jet", "Trk", "Int", "SeqInt", "SeqSeqInt"}
              ELSE IF Fam = "mdp" THEN {"Evt", "Jet", "Int", "PS", "RecS"}      \* MetaData wrappers inside packaged values
@@ -48,6 +48,7 @@ Binders == CASE Fam \in {"fuse1", "chain1", "md1", "chainx", "chainp", "mdp", "f
              [] Fam = "helper" -> {"a", "t", "a_1"}     \* (a_1: what an inner binder a is renamed to when it collides)
              [] Fam = "e2eb" -> {"x", "x_1"}
              [] Fam = "aggs" -> {"len", "x"}         \* a lambda parameter named like a shortcut (used as a value, never called)
+             [] Fam = "betadn" -> {"ds", "x"}        \* nested called lambdas, the inner one named like the dataset
              [] Fam = "betads" -> {"ds"}        \* a called lambda's parameter named like the (free) dataset name
              [] Fam = "corea" -> {"arg_0", "arg_1", "arg_e"}     \* names the simplifier itself generates / names that look alike
              [] OTHER -> {"x", "y"}
@@ -63,6 +64,8 @@ ProdSet ==
       \* called lambdas whose parameter lists go beyond plain parameters (positional-only, keyword-only, *args)
       [] Fam = "betav" -> {"Select", "BetaSig", "Add", "Count", "First"}
       [] Fam = "betads" -> {"Select", "First", "BetaSeq", "Pack", "FirstProj"}
+      \* an outer called lambda whose argument mentions the dataset, an inner one whose PARAMETER is named like it
+      [] Fam = "betadn" -> {"Select", "BetaSeq", "BetaInt", "Pack", "FirstProj"}
       [] Fam = "chainf" -> {"Select", "Where", "SelectMany", "Cmp", "Pack", "First", "FirstProj"}
       [] Fam = "corea" -> {"Select", "Where", "SelectMany", "First", "Count", "Cmp", "Add", "Beta"}
       [] Fam = "fuse1" -> {"Select", "Where", "SelectMany", "First", "Count", "Cmp", "Add",
@@ -103,7 +106,7 @@ ProdSet ==
       \* chains whose stages differ only in a constant (rendered as ONE lambda expression in a loop over the constants)
       [] Fam = "e2el"  -> {"Select", "Where", "SelectMany"}
       [] Fam = "all"   -> AllProds \ {"OtherMeth", "KwOp", "AggOdd", "MD", "OutIdx", "AbsentKey", "Comp", "Helper", "HelperE2E",
-                                       "AggExpl", "FuncKw", "UnIdx", "Thunk", "DupKey", "BetaSig", "BetaSeq", "FirstProj", "OpDef"}
+                                       "AggExpl", "FuncKw", "UnIdx", "Thunk", "DupKey", "BetaSig", "BetaSeq", "FirstProj", "OpDef", "BetaInt"}
       [] OTHER -> {}
 
 (* ProdSet is a constant-level definition: TLC evaluates it once *)
@@ -154,6 +157,7 @@ Leaves(s, ns, ss) ==
       \cup ProjRefs(s, ns, ss) \cup BadProjRefs(s, ns, ss)
       \cup (IF s = "SeqEvt" /\ "ds" \notin Range(ns) THEN {Name("ds")} ELSE {})
       \cup (IF s = "Int" THEN {IntC(1)} ELSE {})
+      \cup (IF s = "Pair" /\ Fam = "betadn" THEN {Tup(<<IntC(1), IntC(1)>>)} ELSE {})      \* (a package at no cost: depth goes to the binders)
       \cup (IF s = "Int" /\ Fam \in {"e2e", "e2et"} THEN {Name("CUT")} ELSE {})        \* a captured module-level constant
       \cup (IF s = "Bool" /\ Enabled("True") THEN {BoolC(TRUE)} ELSE {})
       \cup (IF s = "Bool" /\ Fam = "comp" THEN {IntC(0)} ELSE {})     \* a constant condition that is falsy without being False
@@ -277,6 +281,10 @@ NonLeaf(h) ==
       (IF s \in ElemSorts \cup SeqSorts /\ Enabled("BetaSeq") THEN
           {CallP(Lam1(x, Hole(s, sp[2], Push(ns, x), Append(ss, SortT(y)))), <<Hole(y, sp[1], ns, ss)>>) :
               sp \in Split2(r), x \in Binders, y \in {"SeqEvt", "SeqPair", "Evt"} \cap (ElemSorts \cup SeqSorts)}
+       ELSE {}) \cup
+      (* a called lambda with an integer parameter (family betadn) *)
+      (IF s = "Int" /\ Enabled("BetaInt") THEN
+          {CallP(Lam1(x, Hole("Int", r, Push(ns, x), Append(ss, SortT("Int")))), <<IntC(1)>>) : x \in Binders}
        ELSE {}) \cup
       (* a constant projection of the first element of a sequence of packages *)
       (IF s = "Int" /\ Enabled("FirstProj") THEN
@@ -536,6 +544,7 @@ RootSorts == CASE Fam = "chainp" -> {"SeqInt", "SeqSeqInt"}
                [] Fam = "mdp" -> {"SeqRecS", "SeqPS", "SeqInt"}
                [] Fam \in {"idx", "chain", "chain1", "chainx", "chainf"} -> {"SeqInt"}
                [] Fam \in {"betads", "betav"} -> {"SeqInt", "Int"}
+               [] Fam = "betadn" -> {"Int"}
                [] Fam = "betaw" -> {"SeqTrk", "SeqJet"}
                [] Fam \in {"agg", "aggs"} -> {"SeqInt", "Int"}
                [] Fam = "helper" -> {"SeqInt", "SeqJet"}
